@@ -50,7 +50,8 @@ const (
 	KPanicStringer
 	KPanicError
 	KPanicSafeFormatter
-	KPtrStruct // pointer to struct with an unsafe field
+	KPtrStruct    // pointer to struct with an unsafe field
+	KPtrRegStruct // pointer to a struct of a registrable type (the registry matches the pointee's exact type)
 	KNilPtr
 	KIntPtr
 	KReflectValue // reflect.ValueOf(child)
@@ -201,9 +202,10 @@ type ptrStruct struct {
 
 // ---- sentinels: content of leaves per instantiation
 
+// (the two instantiations of a word have their line feeds at the same positions, as C02 requires)
 var unsafeWords = [2][]string{
-	{"qzalpha", "qzbra\nvo", "qzcharlie‹x", "qzd", "", "qz e cho", "qzfox›trot"},
-	{"wkgolfing", "wkhot\nelx", "wkindia›‹", "wkjuliet!", "", "wk k ilo", "wklima‹zz"},
+	{"qzalpha", "qzbra\nvo", "qzcharlie‹x", "qzd", "", "qz e cho", "qzfox›trot", "qzgulf‹\nmike", "qzp\n‹\nq", "qzsierra›\n", "\nqzu"},
+	{"wkgolfing", "wkhot\nelx", "wkindia›‹", "wkjuliet!", "", "wk k ilo", "wklima‹zz", "wknovv›\noscar‹", "wkr\n›\nss", "wktangoo‹\n", "\nwkvictorwhiskeyx"},
 }
 
 func unsafeStr(id, inst int) string {
@@ -324,6 +326,8 @@ func (v *Val) build(inst int) interface{} {
 		return panicSF{unsafeStr(v.ID, inst)}
 	case KPtrStruct:
 		return ptrFor(v.ID, inst)
+	case KPtrRegStruct:
+		return &RegStruct{unsafeStr(v.ID, inst), unsafeInt(v.ID, inst)}
 	case KNilPtr:
 		return (*ptrStruct)(nil)
 	case KIntPtr:
@@ -481,7 +485,7 @@ func (v *Val) ownClass() bool {
 
 var leafKinds = []VKind{KNil, KBool, KInt, KInt8, KUint16, KUint64, KUintptr, KFloat, KComplex, KString, KBytes, KNamedStr, KNamedInt,
 	KSafeStr, KSafeInt, KRegInt, KRegStruct, KErr, KStringer, KPStringer, KNilStringer, KGoStringer, KFormatter, KSafeFormatter, KSafeMessager,
-	KErrFormatter, KErrStringer, KPanicStringer, KPanicError, KPanicSafeFormatter, KPtrStruct, KNilPtr, KIntPtr, KStrSlice, KIntArr, KMapKeyed,
+	KErrFormatter, KErrStringer, KPanicStringer, KPanicError, KPanicSafeFormatter, KPtrStruct, KPtrRegStruct, KNilPtr, KIntPtr, KStrSlice, KIntArr, KMapKeyed,
 	KRedactable, KRedactableB, KChan, KFunc, KByteArr, KDuration, KBuilder, KSafeStringer, KFormatterWS, KMapIfaceKey, KMapStructKey, KNilMapStringer, KNilSliceError, KNilFuncStringer}
 
 var redactPool = []string{"", "plain", "‹x›", "a ‹b› c", "‹a›\n‹b›", "?‹?›", "‹×›", "‹ ›x\n", "pre‹u1›mid‹u2›post", "‹q?z›"}
@@ -532,7 +536,7 @@ func genVal(r *Rng, depth int, o GenOpts, nextID *int) *Val {
 		if o.NoPanics && v.panics() {
 			continue
 		}
-		if o.NoAddr && v.hasKind(KChan, KFunc, KIntPtr, KPtrStruct, KBuilder) {
+		if o.NoAddr && v.hasKind(KChan, KFunc, KIntPtr, KPtrStruct, KPtrRegStruct, KBuilder) {
 			continue
 		}
 		return v
@@ -545,7 +549,7 @@ func (v *Val) String() string {
 		KSafeInt: "SafeInt", KRegInt: "RegInt", KRegStruct: "RegStruct", KErr: "error", KStringer: "Stringer", KPStringer: "*Stringer",
 		KNilStringer: "nil*Stringer", KGoStringer: "GoStringer", KFormatter: "Formatter", KSafeFormatter: "SafeFormatter", KSafeMessager: "SafeMessager",
 		KErrFormatter: "errFormatter", KErrStringer: "errStringer", KPanicStringer: "panicStringer", KPanicError: "panicError",
-		KPanicSafeFormatter: "panicSafeFormatter", KPtrStruct: "*struct", KNilPtr: "nil*struct", KIntPtr: "*int", KReflectValue: "reflect.Value",
+		KPanicSafeFormatter: "panicSafeFormatter", KPtrStruct: "*struct", KPtrRegStruct: "*RegStruct", KNilPtr: "nil*struct", KIntPtr: "*int", KReflectValue: "reflect.Value",
 		KSafe: "Safe", KUnsafe: "Unsafe", KSlice: "[]any", KStrSlice: "[]string", KIntArr: "[2]int", KMap: "map", KMapKeyed: "map[MyStr]int",
 		KStruct: "struct", KRedactable: "RedactableString", KRedactableB: "RedactableBytes", KChan: "chan", KFunc: "func", KByteArr: "[3]byte",
 		KDuration: "dur", KBuilder: "*StringBuilder", KSafeStringer: "SafeStringer", KFormatterWS: "FormatterWS", KMapIfaceKey: "map[any]string", KMapStructKey: "map[struct]int", KNilMapStringer: "nilMapStringer", KNilSliceError: "nilSliceError", KNilFuncStringer: "nilFuncStringer"}
